@@ -34,7 +34,8 @@ def gen_cases(ctx):
             if inpkg:
                 chunks += [loc[k:k + CHUNK] for k in range(0, len(loc), CHUNK)]
         # every variadic method form under every unroll-variadic setting (how the variadic slice is carried depends on the whole parameter list)
-        vidx = [k for k in order if cat[k]["feature"].startswith("method.variadic")]
+        # (plus the features whose breakage shows only at run time or only for one template: names like promoted mock.Mock methods, self-referential constraints)
+        vidx = [k for k in order if cat[k]["feature"].startswith("method.variadic") or cat[k]["feature"].startswith("method.name-like-promoted") or cat[k]["feature"] == "generic.self-ref-constraint"]
         if (inpkg or ctx.tier == "thorough") and vidx:
             for u in (None, True, False):
                 for k in range(0, len(vidx), CHUNK):
@@ -105,6 +106,8 @@ def eval_case(ctx, case):
     if case.get("override_opposite"):
         case = dict(case, td_by_name={i["name"]: {"unroll-variadic": not case["td"]["unroll-variadic"]} for k, i in enumerate(ifaces) if k % 2 == 0})
     root, info, usable, note = drvrun.prepare(ctx, case, ifaces, ctx.known)
+    if root is None and isinstance(note, dict) and note.get("crash"):
+        return [(case, Verdict.violated(note["crash"], note, ["tool-crash-during-generation"]))]
     if root is None:
         return [(case, Verdict.skipped(note) if usable == [] else Verdict.inconclusive(note))]
     if not usable:
